@@ -685,11 +685,7 @@ func (gen *Generator) GenerateCallBySymbol(sym *SexpSymbol, args []Sexp, orig Se
 		// then jump to beginning of function, where a fresh function
 		// scope is added: closures created by earlier iterations keep
 		// the parameters they captured.
-		for i := 0; i < gen.scopes+1; i++ {
-			gen.AddInstruction(RemoveScopeInstr{})
-		}
-		gen.AddInstruction(PrepareCallInstr{sym, len(args)})
-		gen.AddInstruction(GotoInstr{0})
+		gen.AddInstruction(TailCallInstr{sym: sym, nargs: len(args), scopes: gen.scopes + 1})
 	} else {
 		gen.AddInstruction(CallExprInstr{callee: sym, args: append([]Sexp(nil), args...)})
 	}
